@@ -16,8 +16,10 @@ namespace OtelVerif.C18
 def W : Nat := 18446744073709551616  -- 2^64
 
 def u64 (n : Nat) : Nat := n % W
-/-- `a - b` on `uint64` -/
-def wsub (a b : Nat) : Nat := (a + W - b % W) % W
+/-- `a - b` on `uint64` (for `a < 2^64`): `(a + 2^64 − b mod 2^64) mod 2^64`, written by cases so that
+no term `x + 2^64` with an open `x` ever has to be normalised (the kernel would peel the literal
+successor by successor) -/
+def wsub (a b : Nat) : Nat := if b % W ≤ a then a - b % W else W - (b % W - a)
 /-- `a * b` on `uint64` -/
 def wmul (a b : Nat) : Nat := (a * b) % W
 
@@ -186,5 +188,122 @@ def RC.runPinned (s : RC) (ops : List RCOp) : RC := ops.foldl (fun s o => (s.ste
 
 /-- memory is being checked periodically -/
 def RC.checking (s : RC) : Bool := s.goroutine && s.ticker
+
+
+/-! ## the processor in full: `process*` + its obsreport, under `processorhelper.New*` (+ its obsreport) -/
+
+inductive Sig | logs | traces | metrics | profiles
+deriving Repr, DecidableEq
+
+/-- what a `ProcessXFunc` may return besides the data -/
+inductive PErr
+  | dataRefused        -- memorylimiter.ErrDataRefused
+  | skipProcessing     -- processorhelper.ErrSkipProcessingData (swallowed by the helper)
+deriving Repr, DecidableEq
+
+/-- counter increments of one consume call: the limiter processor's own `accepted` / `refused`
+(no instrument exists for profiles: `obsReport.accepted/refused` have no case for that signal) and the
+helper's `incoming` / `outgoing` items -/
+structure Counts where
+  accepted : Nat := 0
+  refused : Nat := 0
+  incoming : Nat := 0
+  outgoing : Nat := 0
+deriving Repr, DecidableEq
+
+structure ConsumeOut (α : Type) where
+  forwarded : Option α
+  res : Res
+  counts : Counts
+
+/-- `memoryLimiterProcessor.process{Traces,Metrics,Logs,Profiles}`: data unchanged; refusing → `ErrDataRefused` -/
+def processML {α : Type} (sig : Sig) (refusing : Bool) (n : Nat) (payload : α) : α × Option PErr × Counts :=
+  let counted := if sig = .profiles then 0 else n
+  if refusing then (payload, some .dataRefused, { refused := counted })
+  else (payload, none, { accepted := counted })
+
+/-- `processorhelper.New{Logs,Traces,Metrics}` consume closure around a process function (`obs = true`: it
+records incoming / outgoing items); `xprocessorhelper.NewProfiles` is the same closure without an
+obsreport (`obs = false`) -/
+def helperWrap {α : Type} (obs : Bool) (items : α → Nat) (proc : α → α × Option PErr × Counts) (next : α → Res) (payload : α) : ConsumeOut α :=
+  let nIn := if obs then items payload else 0
+  match proc payload with
+  | (_, some .skipProcessing, k) => { forwarded := none, res := .ok, counts := { k with incoming := nIn, outgoing := 0 } }
+  | (_, some .dataRefused, k) => { forwarded := none, res := .refused, counts := { k with incoming := nIn, outgoing := 0 } }
+  | (ld, none, k) => { forwarded := some ld, res := next ld, counts := { k with incoming := nIn, outgoing := if obs then items ld else 0 } }
+
+/-- a consume call of the memory-limiter processor as the pipeline sees it -/
+def consumeFull {α : Type} (sig : Sig) (items : α → Nat) (refusing : Bool) (payload : α) (next : α → Res) : ConsumeOut α :=
+  helperWrap (sig != .profiles) items (processML sig refusing (items payload)) next payload
+
+/-- the extension: `memoryLimiterExtension.MustRefuse` is the limiter's mode -/
+def extMustRefuse (s : LState) : Bool := s.mustRefuse
+
+/-- oracle for one observed consume call (`fwd` = downstream was called, `same` = with the very payload,
+`isRefused` = `errors.Is(err, ErrDataRefused)`, `isNil`, `isPerm`, `eqNext` = the error is downstream's) -/
+structure ObsConsume where
+  refusing : Bool
+  fwd : Bool
+  same : Bool
+  isNil : Bool
+  isRefused : Bool
+  isPerm : Bool
+  eqNext : Bool
+deriving Repr, DecidableEq
+
+def checkConsume (o : ObsConsume) : List String :=
+  (if o.refusing && o.fwd then ["C18/processor/forwarded-while-refusing"] else []) ++
+  (if o.refusing && !o.isRefused then ["C18/processor/refusing-without-data-refused-error"] else []) ++
+  (if o.refusing && o.isPerm then ["C18/processor/refused-error-is-permanent"] else []) ++
+  (if !o.refusing && !(o.fwd && o.same) then ["C18/processor/payload-not-forwarded-unmodified"] else []) ++
+  (if !o.refusing && !o.eqNext then ["C18/processor/downstream-result-not-returned"] else [])
+
+/-! ## the monitoring loop: ticker → `CheckMemLimits`, interleaved with start / shutdown of the sharers -/
+
+inductive Lbl
+  | start
+  | shutdown
+  /-- one check interval elapses; `r` is what memory looks like then -/
+  | tick (r : Reading)
+deriving Repr, DecidableEq
+
+structure Sys where
+  rc : RC := {}
+  st : LState := {}
+  /-- number of `CheckMemLimits` calls made by the monitoring goroutine -/
+  checks : Nat := 0
+deriving Repr, DecidableEq
+
+/-- `for { select { case <-ticker.C: case <-closed: return }; CheckMemLimits() }`: a tick reaches
+`CheckMemLimits` only while the goroutine lives and the ticker is armed -/
+def Sys.step (k : Checker) (gcSoft gcHard : Int) (s : Sys) : Lbl → Sys
+  | .start => { s with rc := (s.rc.step .start).1 }
+  | .shutdown => { s with rc := (s.rc.step .shutdown).1 }
+  | .tick r => if s.rc.checking then { s with st := (check k gcSoft gcHard s.st r).st, checks := s.checks + 1 } else s
+
+def Sys.run (k : Checker) (gcSoft gcHard : Int) (s : Sys) (ls : List Lbl) : Sys := ls.foldl (Sys.step k gcSoft gcHard) s
+
+def usersStep (n : Nat) : Lbl → Nat
+  | .start => n + 1
+  | .shutdown => n - 1
+  | .tick _ => n
+
+/-- users after a label sequence: starts − accepted shutdowns -/
+def usersL : List Lbl → Nat := List.foldl usersStep 0
+
+def tickStep (uc : Nat × Nat) : Lbl → Nat × Nat
+  | .start => (uc.1 + 1, uc.2)
+  | .shutdown => (uc.1 - 1, uc.2)
+  | .tick _ => (uc.1, if 0 < uc.1 then uc.2 + 1 else uc.2)
+
+/-- ticks that fell while at least one user was present -/
+def tickCount (ls : List Lbl) : Nat := (ls.foldl tickStep (0, 0)).2
+
+/-- oracle for the ref-count harness, on the implementation's own observations: `users` before the op -/
+def checkRC (users : Int) (op : String) (err checked : Bool) : List String :=
+  (if op = "shutdown" && (err != decide (users ≤ 0)) then ["C18/refcount/shutdown-error-mismatch"] else []) ++
+  (if op = "start" && err then ["C18/refcount/start-error"] else []) ++
+  (if op = "tick" && checked && decide (users ≤ 0) then ["C18/refcount/checking-after-last-shutdown"] else []) ++
+  (if op = "tick" && !checked && decide (users > 0) then ["C18/refcount/not-checking-while-users-remain"] else [])
 
 end OtelVerif.C18
